@@ -46,8 +46,8 @@ func ruleP19AbsentDb(p *Prog, r *Report) {
 				absent, other = other, absent
 			}
 			if rejectComplete(absent, func(ret *ssa.Return) string {
-				rc, _ := callOf(ret.Results[0])
-				if rc == nil || staticCallee(rc) == nil || fnBase(staticCallee(rc)) != "NewEmptyBookmarksCollection" || !isNilConst(ret.Results[1]) {
+				rc, _ := callOf(retResult(ret, 0))
+				if rc == nil || staticCallee(rc) == nil || fnBase(staticCallee(rc)) != "NewEmptyBookmarksCollection" || !isNilConst(retResult(ret, 1)) {
 					return "not (empty collection, nil)"
 				}
 				return ""
@@ -55,7 +55,7 @@ func ruleP19AbsentDb(p *Prog, r *Report) {
 				okAbsent = true
 			}
 			if rejectComplete(other, func(ret *ssa.Return) string {
-				if !isNilConst(ret.Results[0]) || p.nilnessAt(ret.Block(), ret.Results[1], 0) != nnNonNil {
+				if !isNilConst(retResult(ret, 0)) || p.nilnessAt(ret.Block(), retResult(ret, 1), 0) != nnNonNil {
 					return "not (nil, error)"
 				}
 				return ""
@@ -68,7 +68,7 @@ func ruleP19AbsentDb(p *Prog, r *Report) {
 		// the database text is what gets parsed
 		okParse := false
 		for _, ret := range returnsOf(f) {
-			if rc, _ := callOf(ret.Results[0]); rc != nil && staticCallee(rc) != nil && fnBase(staticCallee(rc)) == "NewBookmarksCollectionFromJson" {
+			if rc, _ := callOf(retResult(ret, 0)); rc != nil && staticCallee(rc) != nil && fnBase(staticCallee(rc)) == "NewBookmarksCollectionFromJson" {
 				okParse = sameValue(rc.Common().Args[0], resultOf(read, 0)) && knownNil(ret.Block(), e)
 			}
 		}
@@ -89,7 +89,7 @@ func ruleP19AbsentDb(p *Prog, r *Report) {
 			msg, how := p.checkForwarding(cf, e, lastResultIdx)
 			okNil := true
 			for _, ret := range returnsOf(cf) {
-				if knownNil(ret.Block(), e) && p.nilnessAt(ret.Block(), ret.Results[0], 0) != nnNil {
+				if knownNil(ret.Block(), e) && p.nilnessAt(ret.Block(), retResult(ret, 0), 0) != nnNil {
 					okNil = false
 				}
 			}
